@@ -40,6 +40,10 @@ def step (t : List String) : String :=
           fmtList toString ((List.range n).map fun i =>
             expose flrF d[5 + i]! tt dc d[5 + n + i]! d[5 + 2 * n + i]! bias fwc gain bits)
       | _, _, _ => "bad-op"
+  | ["castbits", bs] =>
+      match bs.toInt? with
+      | some bits => s!"{castBits bits} {adcCap bits}"
+      | none => "bad-op"
   | "bin" :: mode :: ds :: rest =>
       match ds.toNat? with
       | some d =>
